@@ -52,7 +52,7 @@ impl Property for C06 {
         1600
     }
     fn quick_cases(&self) -> u64 {
-        64_000
+        128_000
     }
     fn states_termination(&self) -> bool {
         // generated programs terminate by construction (and the VM has a budget): a case that does
